@@ -13,7 +13,9 @@ import (
 
 	"github.com/cenkalti/backoff/v4"
 	"github.com/ovn-org/libovsdb/client"
+	"github.com/ovn-org/libovsdb/model"
 	"github.com/ovn-org/libovsdb/ovsdb"
+	"github.com/ovn-org/libovsdb/ovsdb/serverdb"
 	"pgregory.net/rapid"
 
 	"verif/pbt/kit"
@@ -565,5 +567,212 @@ func TestC16ReconnectWindow(t *testing.T) {
 		}
 		kit.Record("C16", "window|"+string(kit.MustJSON(kase)), kase.ParkAt > 0, func() interface{} { return kase },
 			"reconnect-window", fmt.Sprintf("window:monitors:%d:parkat:%d", len(sc.Monitors), kase.ParkAt))
+	})
+}
+
+type c16LeaderCase struct {
+	Servers   int      `json:"servers"`
+	Endpoints []int    `json:"endpointOrder"`
+	Leaders   []int    `json:"leaderAfterEachStep"` // index of the leading server, -1 = none
+	Orders    []string `json:"orderOfTheTwoUpdates"`
+	Step      int      `json:"failedStep"`
+}
+
+// leaderServer is one cluster member: its own copy of the database plus the _Server
+// database in which it reports whether it leads.
+type leaderServer struct {
+	srv  *kit.Server
+	peer *kit.RawPeer
+	sid  string
+}
+
+func (l *leaderServer) setLeader(leader bool) error {
+	reply, err := l.peer.Transact("_Server", []json.RawMessage{json.RawMessage(fmt.Sprintf(`{"op":"update","table":"Database","where":[["name","==","DB"]],"row":{"leader":%v}}`, leader))})
+	if err != nil {
+		return err
+	}
+	if !strings.Contains(string(reply), `"count":1`) {
+		return fmt.Errorf("reply %s", reply)
+	}
+	return nil
+}
+
+// TestC16Leader: leader-only mode against 2-3 servers that each export _Server. The
+// client must attach to the server that reports leadership of the database, leave it when
+// it stops reporting it, follow the leadership wherever it goes (re-establishing its
+// monitor: the cache must converge to the contents of the new leader's database), and stay
+// detached while nobody leads.
+func TestC16Leader(t *testing.T) {
+	w := c16World(t)
+	cm, err := serverdb.FullDatabaseModel()
+	if err != nil {
+		t.Fatal(err)
+	}
+	sdm, errs := model.NewDatabaseModel(serverdb.Schema(), cm)
+	if len(errs) > 0 {
+		t.Fatal(errs)
+	}
+	rapid.Check(t, func(t *rapid.T) {
+		n := rapid.IntRange(2, 3).Draw(t, "nservers")
+		kase := c16LeaderCase{Servers: n}
+		fail := func(class, format string, args ...interface{}) {
+			kit.Fail(t, "C16", class, kase, format, args...)
+		}
+		var servers []*leaderServer
+		leader := rapid.IntRange(0, n-1).Draw(t, "leader0")
+		kase.Leaders = append(kase.Leaders, leader)
+		for i := 0; i < n; i++ {
+			srv, err := kit.StartServer(w, sdm)
+			if err != nil {
+				t.Fatalf("server: %v", err)
+			}
+			defer srv.Close()
+			p, err := kit.DialRaw(srv.Sock)
+			if err != nil {
+				t.Fatalf("dial: %v", err)
+			}
+			defer p.Close()
+			ls := &leaderServer{srv: srv, peer: p, sid: kit.MkUUID(7000 + i)}
+			own := fmt.Sprintf(`{"op":"insert","table":"Database","row":{"name":"DB","model":"clustered","connected":true,"leader":%v,"sid":["uuid","%s"],"cid":["uuid","%s"]}}`, i == leader, ls.sid, kit.MkUUID(7100))
+			other := `{"op":"insert","table":"Database","row":{"name":"_Server","model":"standalone","connected":true,"leader":true}}`
+			rows := []json.RawMessage{json.RawMessage(own), json.RawMessage(other)}
+			if rapid.Bool().Draw(t, "serverrowfirst") {
+				rows[0], rows[1] = rows[1], rows[0]
+			}
+			if reply, err := p.Transact("_Server", rows); err != nil || strings.Contains(string(reply), "error") {
+				t.Fatalf("harness: _Server rows: %s %v", reply, err)
+			}
+			// every member holds different contents, so the cache tells which one is monitored
+			if _, err := p.Transact("DB", []json.RawMessage{json.RawMessage(fmt.Sprintf(`{"op":"insert","table":"T0","row":{"marker":"member-%d","n":%d}}`, i, i))}); err != nil {
+				t.Fatalf("harness: %v", err)
+			}
+			servers = append(servers, ls)
+		}
+		order := rapid.Permutation([]int{0, 1, 2}[:n]).Draw(t, "endpoints")
+		kase.Endpoints = order
+		var opts []client.Option
+		for _, i := range order[1:] {
+			opts = append(opts, client.WithEndpoint(servers[i].srv.Endpoint()))
+		}
+		opts = append(opts, client.WithLeaderOnly(true), client.WithReconnect(2*time.Second, backoff.NewConstantBackOff(3*time.Millisecond)))
+		c, err := kit.NewClient(w, servers[order[0]].srv.Endpoint(), opts...)
+		if err != nil {
+			t.Fatalf("client: %v", err)
+		}
+		defer c.Close()
+		ctx, cancel := context.WithTimeout(context.Background(), 20*time.Second)
+		defer cancel()
+		if err := c.Connect(ctx); err != nil {
+			fail("leader.connect", "Connect with server %d leading: %v", leader, err)
+		}
+		if _, err := c.Monitor(ctx, c.NewMonitor(client.WithTable(w.NewModel("T0")))); err != nil {
+			fail("monitor.error", "Monitor: %v", err)
+		}
+		// attachedTo reports the server the client is attached to (-1: none, -2: changing)
+		attachedTo := func() int {
+			e1 := c.CurrentEndpoint()
+			conn := c.Connected()
+			e2 := c.CurrentEndpoint()
+			if e1 != e2 {
+				return -2
+			}
+			if !conn || e1 == "" {
+				return -1
+			}
+			for i, s := range servers {
+				if s.srv.Endpoint() == e1 {
+					return i
+				}
+			}
+			return -2
+		}
+		settle := func(step int, want int) {
+			kase.Step = step
+			deadline := time.Now().Add(20 * time.Second)
+			var last int
+			var diffs []string
+			for {
+				last = attachedTo()
+				diffs = nil
+				if last == want {
+					if want < 0 {
+						break
+					}
+					db, err := servers[want].srv.Snapshot()
+					if err != nil {
+						t.Fatalf("snapshot: %v", err)
+					}
+					rows, err := kit.CacheRows(w, c, "T0")
+					if err == nil {
+						diffs = kit.DiffStates(kit.State{"T0": db["T0"]}, kit.State{"T0": rows})
+					} else {
+						diffs = []string{err.Error()}
+					}
+					if len(diffs) == 0 {
+						break
+					}
+				}
+				if time.Now().After(deadline) {
+					if want >= 0 && last == want {
+						fail("resync.cache-differs", "step %d: attached to the leader (server %d) but the cache does not converge to its database:\n%s", step, want, strings.Join(diffs, "\n"))
+					}
+					fail("leader.wrong-endpoint", "step %d: 20 s after the change the client is attached to server %d (-1 = none), the database is led by server %d (-1 = nobody)", step, last, want)
+				}
+				time.Sleep(2 * time.Millisecond)
+			}
+			// and it stays there
+			for i := 0; i < 25; i++ {
+				if a := attachedTo(); a != want && a != -2 && !(want >= 0 && a == -1) {
+					fail("leader.wrong-endpoint", "step %d: the client settled on server %d and then attached to server %d, which does not lead", step, want, a)
+				}
+				time.Sleep(2 * time.Millisecond)
+			}
+		}
+		settle(0, leader)
+		for step, steps := 1, rapid.IntRange(1, 3).Draw(t, "steps"); step <= steps; step++ {
+			cands := []int{-1}
+			for i := 0; i < n; i++ {
+				if i != leader {
+					cands = append(cands, i)
+				}
+			}
+			next := rapid.SampledFrom(cands).Draw(t, "nextleader")
+			if leader < 0 && next < 0 {
+				next = 0
+			}
+			kase.Leaders = append(kase.Leaders, next)
+			newFirst := rapid.Bool().Draw(t, "newleaderfirst")
+			kase.Orders = append(kase.Orders, map[bool]string{true: "new leader announces first", false: "old leader resigns first"}[newFirst])
+			resign := func() {
+				if leader >= 0 {
+					if err := servers[leader].setLeader(false); err != nil {
+						t.Fatalf("harness: %v", err)
+					}
+				}
+			}
+			announce := func() {
+				if next >= 0 {
+					if err := servers[next].setLeader(true); err != nil {
+						t.Fatalf("harness: %v", err)
+					}
+				}
+			}
+			if newFirst {
+				announce()
+				resign()
+			} else {
+				resign()
+				announce()
+			}
+			if next >= 0 {
+				// something changes at the new leader while the client moves over
+				if _, err := servers[next].peer.Transact("DB", []json.RawMessage{json.RawMessage(fmt.Sprintf(`{"op":"insert","table":"T0","row":{"marker":"step-%d","n":%d}}`, step, step))}); err != nil {
+					t.Fatalf("harness: %v", err)
+				}
+			}
+			leader = next
+			settle(step, leader)
+		}
+		kit.Record("C16", "leader|"+string(kit.MustJSON(kase)), len(kase.Leaders) > 2, func() interface{} { return kase }, "leader-only", fmt.Sprintf("leader:servers:%d", n))
 	})
 }
